@@ -397,3 +397,97 @@ for _par in (False, True):
                        "and self.JOBS[0][0][1]['progset_instructions'][0] is INS and self.JOBS[0][0][1]['result_names'] == ['default']") if _par else
                       ("len(self.CALLS) == 3 and len(self.JOBS) == 0 and all(%s for c in self.CALLS) and result == ['result 1', 'result 2', 'result 3']" % _each))],
             defined_props=["C17"])
+
+
+# ---- Ensemble.run_sims in parallel and results._sample_and_map (C17; F28 lived here): pool workers inherit the parent's generator state, so in the parallel branch every
+# sample is handed its OWN seed -- n pairwise different integers -- and the worker function seeds the generator with it before it draws; serially (no seed) the generator is
+# left alone, so a seeded serial run stays reproducible.  The seed is not passed on to the mapping function.
+def _env_sam(seed):
+    def make(it):
+        from pyvc.interp import PyObjV
+        from pyvc import source
+
+        return {"proj": PyObjV("Project", source.load("project"), {"name": "proj"}), "parset": "PS", "progset": None, "progset_instructions": None, "result_names": None, "mapping_function": "MAP", "max_attempts": None,
+                "seed": seed, "kwargs": {"extra": 1}, "EVENTS": []}
+
+    return make
+
+
+def _ghost_seed(it, s=None):
+    it.live_env["EVENTS"].append(("seed", s))
+
+
+def _ghost_rss(it, **kw):
+    it.live_env["EVENTS"].append(("run", kw.get("n_samples"), kw.get("parset")))
+    return ["RESULT"]
+
+
+def _ghost_map(it, res, **kw):
+    it.live_env["EVENTS"].append(("map", res, tuple(sorted(kw))))
+    return "PLOTDATA"
+
+
+_sam_stubs = {"np.random.seed": _ghost_seed, "proj.run_sampled_sims": _ghost_rss, "mapping_function": _ghost_map}
+CONTRACTS["results:_sample_and_map#with_a_seed"] = dict(
+    schema=schema, make_env=_env_sam(4711), call_stubs=_sam_stubs,
+    ensures=[("C17.the_generator_is_seeded_with_the_samples_own_seed_before_the_draw", "len(EVENTS) == 3 and EVENTS[0] == ('seed', 4711) and EVENTS[1] == ('run', 1, 'PS')"),
+             ("C17.the_result_is_mapped_and_the_seed_is_not_passed_on", "EVENTS[2] == ('map', 'RESULT', ('extra',)) and result == 'PLOTDATA'")], defined_props=["C17"])
+CONTRACTS["results:_sample_and_map#serially_without_a_seed"] = dict(
+    schema=schema, make_env=_env_sam(None), call_stubs=_sam_stubs,
+    ensures=[("C17.without_a_seed_the_generator_is_left_alone", "len(EVENTS) == 2 and EVENTS[0] == ('run', 1, 'PS') and EVENTS[1] == ('map', 'RESULT', ('extra',)) and result == 'PLOTDATA'")], defined_props=["C17"])
+
+
+def _env_run_sims(it):
+    import z3
+    from pyvc.interp import PyObjV
+    from pyvc import source
+
+    return {"self": PyObjV("Ensemble", source.load("results"), {"name": "ens", "mapping_function": "MAP", "samples": ["stale"]}), "proj": "PROJ", "parset": "PS", "progset": None, "progset_instructions": None, "result_names": None,
+            "parallel": True, "max_attempts": None, "n_samples": 4, "JOBS": [], "BASE": z3.Int("base_seed")}
+
+
+def _ghost_parallelize(it, func, iterarg=None, iterkwargs=None, kwargs=None, **kw):
+    from pyvc.interp import PyObjV, FuncV
+    from pyvc import source
+
+    it.live_env["JOBS"].append((getattr(getattr(func, "info", None), "qualname", None) or str(func), iterarg, iterkwargs, kwargs))
+    n = len(iterkwargs["seed"]) if iterkwargs else iterarg
+    return [PyObjV("PlotData", source.load("plotting"), {"pops": ["adults"], "outputs": ["x"]}) for _ in range(n)]
+
+
+CONTRACTS["results:Ensemble.run_sims#in_parallel"] = dict(
+    schema=schema, make_env=_env_run_sims,
+    call_stubs={"sc.parallelize": _ghost_parallelize, "np.random.randint": (lambda it, lo, hi=None, **k: it.live_env["BASE"]), "self.samples[0].set_colors": (lambda it, *a, **k: None), "int": (lambda it, v: v)},
+    ensures=[("C17.every_sample_of_a_parallel_call_gets_its_own_seed", "len(JOBS) == 1 and JOBS[0][1] is None and len(JOBS[0][2]['seed']) == 4 and all(JOBS[0][2]['seed'][i] != JOBS[0][2]['seed'][j] for i in range(4) for j in range(4) if i != j)"),
+             ("C17.each_job_is_given_the_source_sets_and_the_mapping_function", "JOBS[0][3]['proj'] == 'PROJ' and JOBS[0][3]['parset'] == 'PS' and JOBS[0][3]['progset'] is None and JOBS[0][3]['mapping_function'] == 'MAP' and 'seed' not in JOBS[0][3]"),
+             ("C17.the_old_samples_are_replaced_by_one_sample_per_job", "len(self.samples) == 4")],
+    defined_props=["C17"])
+
+
+def _replay_ensemble_parallel(model, contract):
+    """replay on the REAL Ensemble.run_sims(parallel=True) in a fresh interpreter: the udt demo with uncertainty on three parameters, 6 samples; no two samples may be equal"""
+    import json
+    import os
+    import subprocess
+    import sys
+
+    code = (
+        "import warnings, logging, json, sys\nwarnings.filterwarnings('ignore')\nsys.path.insert(0, %r)\nimport numpy as np\nimport atomica as at\nat.logger.setLevel(logging.ERROR)\n"
+        "def mapping(results):\n    return at.PlotData(results, outputs=['dx'], pops='adults')\n"
+        "if __name__ == '__main__':\n"
+        "    P = at.demo('udt', do_run=False)\n    ps = P.parsets[0]\n"
+        "    for name in ('num_diag', 'num_initiate', 'num_loss'):\n        for ts in ps.pars[name].ts.values():\n            ts.sigma = 0.2 * (ts.assumption if ts.assumption is not None else (ts.vals[0] if ts.vals else 1.0))\n"
+        "    np.random.seed(1)\n    ens = at.Ensemble(mapping_function=mapping)\n    ens.run_sims(P, ps, n_samples=6, parallel=True)\n"
+        "    print('FINALS ' + json.dumps([float(s.series[0].vals[-1]) for s in ens.samples]))\n") % os.environ.get("ATOMICA_REPO", "/repo")
+    out = subprocess.run([sys.executable, "-c", code], capture_output=True, text=True, timeout=600)
+    line = [l for l in out.stdout.splitlines() if l.startswith("FINALS ")]
+    if not line:
+        return dict(verdict="error", detail="replay subprocess failed: %s" % out.stderr[-400:])
+    finals = json.loads(line[0][7:])
+    pre = dict(project="udt", uncertainty="20% on num_diag, num_initiate, num_loss", n_samples=6, parallel=True, final_values=finals)
+    if len(set(finals)) < len(finals):
+        return dict(verdict="violates", detail="%d of the 6 samples of one parallel call are identical (final values %r)" % (len(finals) - len(set(finals)) + 1, finals), prestate=pre)
+    return dict(verdict="holds", detail="the 6 samples of the parallel call are pairwise different", prestate=pre)
+
+
+CONTRACTS["results:Ensemble.run_sims#in_parallel"]["replay_hook"] = _replay_ensemble_parallel
